@@ -18,7 +18,7 @@ git -C "$W/repo" apply "$PATCH" || { echo "patch does not apply"; exit 2; }
 sed -e "s#github.com/attestantio/vouch => /repo#github.com/attestantio/vouch => $W/repo#" /verif/go.mod > "$W/go.mod"
 cp /verif/go.sum "$W/go.sum"
 cd /verif && go test -c -modfile="$W/go.mod" -overlay "$W/ov/overlay.json" -o "$W/sim.test" ./simtest/c08 || exit 2
-VERIF_PROP=C08 VERIF_COUNT=$RUNS VERIF_SCENARIO=$SCEN VERIF_REPLAY_DIR= VERIF_KNOWN=$HERE/KNOWN VERIF_OUT="$W/out.json" "$W/sim.test" -test.run '^TestWorker$' -test.timeout 0 >"$W/log" 2>&1 || { tail -30 "$W/log"; exit 2; }
+VERIF_PROP=C08 VERIF_COUNT=$RUNS VERIF_SCENARIO=$SCEN VERIF_REPLAY_DIR= VERIF_KNOWN=${PROBE_KNOWN-$HERE/KNOWN} VERIF_OUT="$W/out.json" "$W/sim.test" -test.run '^TestWorker$' -test.timeout 0 >"$W/log" 2>&1 || { tail -30 "$W/log"; exit 2; }
 python3 - "$W/out.json" "$HERE/KNOWN" <<'PY'
 import json,sys
 d=json.load(open(sys.argv[1])); known=open(sys.argv[2]).read()
